@@ -268,6 +268,18 @@ Section Update.
     destruct (lookup vk m) as [old|] eqn:El; rewrite IH; destruct (validate_pairs kv vv r); cbn [acc_loop]; rewrite ?El; reflexivity.
   Qed.
 
+  Lemma ctor_loop_validated items : forall acc,
+    ctor_loop kv vv items acc
+    = match validate_pairs kv vv items with
+      | Some vps => Some (update_all vps acc)
+      | None => None
+      end.
+  Proof.
+    induction items as [|[k v] r IH]; intros acc; [reflexivity|]. cbn [ctor_loop validate_pairs].
+    destruct (kv k) as [vk|]; [|reflexivity]. destruct (vv v) as [vvv|]; [|reflexivity].
+    rewrite IH. destruct (validate_pairs kv vv r); reflexivity.
+  Qed.
+
   Definition loop_inv (m vd ad ch : amap) : Prop :=
     NoDup (keys vd) /\ NoDup (keys ch) /\
     (forall k, lookup k ad = if has k m then None else lookup k vd) /\
@@ -392,9 +404,9 @@ Section Main.
 
   (* clause 3 and all event clauses, on every channel, for every operation:
      holds unconditionally (also in the F6 shape). *)
-  Theorem step_ev_codes m o : ev_codes m (step m o) = [].
+  Theorem step_ev_codes m o : is_ctor o = false -> ev_codes m (step m o) = [].
   Proof.
-    destruct o as [k v|k|a ps|a ps|k v|k d| |]; cbn [Model.step].
+    intros Hnc. destruct o as [k v|k|a ps|a ps|k v|k d| | |a ps]; cbn [Model.step]; [| | | | | | | |discriminate Hnc].
     - destruct (kv k) as [vk|]; [|apply raise_ev]. destruct (vv v) as [vvv|]; [|apply raise_ev]. apply store_ev.
     - destruct (lookup k m) as [x|] eqn:El; [apply removed_ev, El | apply raise_ev].
     - apply do_update_ev.
@@ -457,7 +469,7 @@ Section Main.
 
   Theorem step_ref_codes m o : f6_trigger kv vv m o = false -> ref_codes m o (step m o) = [].
   Proof.
-    intros Hf. destruct o as [k v|k|a ps|a ps|k v|k d| |]; cbn [Model.step].
+    intros Hf. destruct o as [k v|k|a ps|a ps|k v|k d| | |a ps]; cbn [Model.step].
     - destruct (kv k) as [vk|] eqn:Ek.
       + destruct (vv v) as [vvv|] eqn:Ev.
         * apply ref_store with (ba := mset vk vvv m); [cbn; rewrite Ek, Ev; reflexivity | apply mapeq_refl].
@@ -498,11 +510,29 @@ Section Main.
           rewrite <- (rev_involutive m), Er. reflexivity. }
         subst m. eapply ref_raise; reflexivity.
     - destruct (mempty m); (eapply ref_intro; [reflexivity | reflexivity | reflexivity | reflexivity]).
+    - (* Ctor *)
+      rewrite ctor_loop_validated. destruct (validate_pairs kv vv (items_of a ps)) as [vps|] eqn:Ev.
+      + eapply ref_intro; [cbn; rewrite Ev; reflexivity | reflexivity | apply mapeq_refl | reflexivity].
+      + eapply ref_raise; [cbn; rewrite Ev; reflexivity | reflexivity].
+  Qed.
+
+  (* a construction notifies nobody *)
+  Lemma ctor_silent m a ps : silent (step m (Ctor a ps)) = true.
+  Proof.
+    cbn [Model.step]. destruct (ctor_loop kv vv (items_of a ps) []); unfold raise, ok, mk, silent; cbn;
+      destruct tgt as [|[|]]; reflexivity.
+  Qed.
+
+  Lemma step_ev_part m o :
+    (if is_ctor o then chk 3 (silent (step m o)) else Law.ev_codes tgt m (step m o)) = [].
+  Proof.
+    destruct (is_ctor o) eqn:E; [|apply step_ev_codes, E].
+    destruct o; try discriminate E. rewrite ctor_silent. reflexivity.
   Qed.
 
   Theorem step_law m o : f6_trigger kv vv m o = false -> law_step m o (step m o) = [].
   Proof.
-    intros Hf. unfold Law.law_step. rewrite step_ref_codes by exact Hf. rewrite step_ev_codes. reflexivity.
+    intros Hf. unfold Law.law_step. rewrite step_ref_codes by exact Hf. rewrite step_ev_part. reflexivity.
   Qed.
 
   (* With the F6 shape allowed: the only clauses that can fail are contents (2)
@@ -511,8 +541,8 @@ Section Main.
     forall c, In c (law_step m o (step m o)) -> f6_trigger kv vv m o = true /\ (c = 2 \/ c = 8).
   Proof.
     intros c Hin. destruct (f6_trigger kv vv m o) eqn:Hf.
-    - split; [reflexivity|]. unfold Law.law_step in Hin. rewrite step_ev_codes, app_nil_r in Hin.
-      destruct o as [k v|k|a ps|a ps|k v|k d| |]; try discriminate Hf.
+    - split; [reflexivity|]. unfold Law.law_step in Hin. rewrite step_ev_part, app_nil_r in Hin.
+      destruct o as [k v|k|a ps|a ps|k v|k d| | |a ps]; try discriminate Hf.
       cbn [f6_trigger] in Hf. cbn [Model.step] in Hin.
       destruct (lookup k m) as [x|] eqn:El; [discriminate|].
       destruct (kv k) as [vk|] eqn:Ek; [|discriminate]. destruct (vv v) as [vvv|] eqn:Ev; [|discriminate].
@@ -574,6 +604,12 @@ Section Readings.
   Variable tgt : target.
   Notation step := (step kv vv tgt).
 
+  Lemma ctor_no_events m a ps :
+    o_events (step m (Ctor a ps)) = [] /\ o_oevents (step m (Ctor a ps)) = [].
+  Proof.
+    cbn [Model.step]. destruct (ctor_loop kv vv (items_of a ps) []); unfold raise, ok, mk; cbn; split; reflexivity.
+  Qed.
+
   Lemma ev_codes_inv m ob :
     ev_codes tgt m ob = [] ->
     (negb (is_raise (o_out ob)) || (mapeq (o_after ob) m && silent ob)) = true /\
@@ -616,7 +652,10 @@ Section Readings.
     (forall k, lookup k m = lookup k (removed ++ changed ++ minus after (keys added))) /\
     (exists k, has k removed = true \/ has k added = true \/ has k changed = true).
   Proof.
-    intros Hin after. pose proof (ev_codes_inv m _ (step_ev_codes kv vv tgt m o)) as (_ & Hc & _ & _).
+    intros Hin after.
+    destruct (is_ctor o) eqn:Ec.
+    { destruct o; try discriminate Ec. destruct (ctor_no_events m asmap ps) as [E _]. rewrite E in Hin. contradiction. }
+    pose proof (ev_codes_inv m _ (step_ev_codes kv vv tgt m o Ec)) as (_ & Hc & _ & _).
     apply chan_inv in Hc. destruct Hc as (_ & _ & H6 & H7). rewrite forallb_forall in H6, H7.
     specialize (H6 _ Hin). specialize (H7 _ Hin). apply ev_ok_spec in H6. destruct H6 as (H1 & H2 & H3 & H4).
     split; [|split; [|split; [|split]]].
@@ -631,19 +670,20 @@ Section Readings.
   Qed.
 
   Lemma step_event_count m o :
+    is_ctor o = false ->
     (length (o_events (step m o)) <= 1)%nat /\
     ((exists k, lookup k m <> lookup k (o_after (step m o))) -> exists e, o_events (step m o) = [e]) /\
     o_events2 (step m o) = o_events (step m o) /\
     o_oevents (step m o) = map (factory (o_after (step m o))) (o_events (step m o)).
   Proof.
-    pose proof (ev_codes_inv m _ (step_ev_codes kv vv tgt m o)) as (_ & Hc & _ & _).
+    intros Ec. pose proof (ev_codes_inv m _ (step_ev_codes kv vv tgt m o Ec)) as (_ & Hc & _ & _).
     apply chan_inv in Hc. destruct Hc as (H4 & H5 & _ & _).
     split; [apply Nat.leb_le; exact H4|]. split.
     - intros [k Hk]. destruct (mapeq m (o_after (step m o))) eqn:E.
       + rewrite mapeq_spec in E. specialize (E k). contradiction.
       + cbn in H5. destruct (o_events (step m o)) as [|e [|e2 r]]; try discriminate. exists e. reflexivity.
     - split.
-      + destruct o as [k v|k|a ps|a ps|k v|k d| |]; cbn [Model.step];
+      + destruct o as [k v|k|a ps|a ps|k v|k d| | |a ps]; cbn [Model.step];
           repeat match goal with
                  | |- context [match ?x with _ => _ end] => destruct x
                  | |- context [if ?x then _ else _] => destruct x
@@ -652,7 +692,7 @@ Section Readings.
                  | |- context [match ?x with _ => _ end] => destruct x
                  | |- context [if ?x then _ else _] => destruct x
                  end; reflexivity.
-      + destruct o as [k v|k|a ps|a ps|k v|k d| |]; cbn [Model.step];
+      + destruct o as [k v|k|a ps|a ps|k v|k d| | |a ps]; cbn [Model.step];
           repeat match goal with
                  | |- context [match ?x with _ => _ end] => destruct x
                  | |- context [if ?x then _ else _] => destruct x
@@ -688,7 +728,7 @@ Section Readings.
   Proof.
     intros He.
     assert (Hshape : forall ob, ob = step m o -> o_out ob = Raise e -> exists e', ob = raise tgt e' m).
-    { intros ob -> Ho. destruct o as [k v|k|a ps|a ps|k v|k d| |]; cbn [Model.step] in *;
+    { intros ob -> Ho. destruct o as [k v|k|a ps|a ps|k v|k d| | |a ps]; cbn [Model.step] in *;
         unfold do_update, store, ok, mk in *;
         repeat match goal with
                | H : context [match ?x with _ => _ end] |- _ => destruct x; cbn [o_out] in H; try discriminate H
@@ -725,7 +765,10 @@ Section Readings.
     (forall k, lookup k after = lookup k (added ++ minus m (keys removed))) /\
     (removed <> [] \/ added <> []).
   Proof.
-    intros Hin after. pose proof (ev_codes_inv m _ (step_ev_codes kv vv tgt m o)) as (_ & _ & _ & Hc).
+    intros Hin after.
+    destruct (is_ctor o) eqn:Ec.
+    { destruct o; try discriminate Ec. destruct (ctor_no_events m asmap ps) as [_ E]. rewrite E in Hin. contradiction. }
+    pose proof (ev_codes_inv m _ (step_ev_codes kv vv tgt m o Ec)) as (_ & _ & _ & Hc).
     apply ochan_inv in Hc. destruct Hc as (_ & _ & H6 & H7). rewrite forallb_forall in H6, H7.
     specialize (H6 _ Hin). specialize (H7 _ Hin). apply oev_ok_spec in H6. destruct H6 as (H1 & H2 & H3).
     repeat split; try assumption. unfold oev_nonempty in H7. cbn [fst snd] in H7.
@@ -757,4 +800,17 @@ Lemma f6_witness :
     law_step kv vv Plain m (SetDefault k v) (step kv vv Plain m (SetDefault k v)) = [2; 8].
 Proof.
   exists (vld_of VCInt), (vld_of VCInt), [(1, 10)], 101, 11. split; vm_compute; reflexivity.
+Qed.
+
+(* construction: the new dict is exactly dict(validated items), nobody is notified;
+   a rejected item leaves the old object in place *)
+Lemma ctor_spec kv vv tgt m a ps :
+  let ob := step kv vv tgt m (Ctor a ps) in
+  match validate_pairs kv vv (items_of a ps) with
+  | Some vps => o_out ob = Ok /\ o_after ob = update_all vps []
+  | None => o_out ob = Raise TraitError /\ o_after ob = m
+  end /\ o_events ob = [] /\ o_events2 ob = [] /\ o_oevents ob = [].
+Proof.
+  cbn zeta. cbn [step]. rewrite ctor_loop_validated.
+  destruct (validate_pairs kv vv (items_of a ps)); unfold raise, ok, mk; cbn; repeat split; reflexivity.
 Qed.
